@@ -69,10 +69,12 @@ ASSUMPTIONS = [
     'docstring; their count is in counters.continued_under_remedy',
 ]
 BOUNDS = {
-    'quick': {'T_step_degC': 2, 'pressures_per_isotherm': 40, 'sat_line_step_degC': 0.1, 'tsat_lattice_points': 300,
-              'separator': 'single stage complete; every ordered two-stage pair of {0.1,0.5,1,2,3,4,5} MPa', 'limits': 'complete',
+    'quick': {'T_step_degC': 1, 'pressures_per_isotherm': 60, 'sat_line_step_degC': 0.1, 'tsat_lattice_points': 1000,
+              'separator': 'single stage complete; every ordered two-stage pair of {0.1, 0.5, 1, 1.5, .., 5} MPa (121)', 'limits': 'complete',
+              'history_lattice_T_step_degC': 50,
               'calls': K.LATTICE['quick']},
-    'thorough': {'T_step_degC': 1, 'pressures_per_isotherm': 60, 'sat_line_step_degC': 0.1, 'tsat_lattice_points': 3000,
+    'thorough': {'T_step_degC': 0.5, 'pressures_per_isotherm': 80, 'sat_line_step_degC': 0.1, 'tsat_lattice_points': 10000,
+                 'history_lattice_T_step_degC': 10,
                  'separator': 'single stage and all 2500 ordered two-stage pairs', 'limits': 'complete',
                  'calls': K.LATTICE['thorough']},
 }
@@ -87,8 +89,8 @@ LEVEL_NOTE = ('Continuous domain: nothing is claimed between lattice points.  Tr
 CAL = os.environ.get('VERIF_CALIBRATE') == '1'
 
 PARAMS = {
-    'quick': dict(tstep=2., npres=40, ntsat=300, two_stage='coarse', tchunk=32, callrows=16),
-    'thorough': dict(tstep=1., npres=60, ntsat=3000, two_stage='all', tchunk=32, callrows=16),
+    'quick': dict(tstep=1., npres=60, ntsat=1000, two_stage='coarse', tchunk=32, callrows=16, hist_tstep=50.),
+    'thorough': dict(tstep=0.5, npres=80, ntsat=10000, two_stage='all', tchunk=32, callrows=16, hist_tstep=10.),
 }
 
 TSAT_TOL = 1.0e-6           # degC, DESIGN C15 oracle: tsat(sat(t)) = t (1e-6)
@@ -571,7 +573,7 @@ def chk_regions(T, I, t, p):
 
 H_GRID = [1.0e4 * k for k in range(351)]
 P_GRID = [round(0.1 * k, 1) * 1.0e6 for k in range(1, 51)]
-P_COARSE = [0.1e6, 0.5e6, 1.0e6, 2.0e6, 3.0e6, 4.0e6, 5.0e6]
+P_COARSE = [0.1e6] + [0.5e6 * k for k in range(1, 11)]
 
 
 def chk_separator(T, p1, p2, hs=None, count=None):
@@ -646,7 +648,7 @@ def history_states(T, tier):
     for v in (lo, R.PCRIT67):
         for p in R.around(v):
             pts.setdefault((100., p), 'p' + position(p, [('sat(0.01)', lo), ('pc67', R.PCRIT67)]))
-    for t in R.t_lattice(R.T_MAX, 100. if tier == 'quick' else 20.):
+    for t in R.t_lattice(R.T_MAX, PARAMS[tier]['hist_tstep']):
         for p in HISTORY_P + (1.2 * R.P_MAX, 300.):
             pts.setdefault((t, p), 'lattice')
     return lo, sorted(pts.items())
@@ -725,7 +727,7 @@ def chk_calls(tier, kind, a, b=None):
         what = ('%s gives %s as the first call after a fresh import but %s after %s (hex floats; the routines are '
                 'pure functions of their arguments)'
                 % (K.fmt(spec), want, got, ', '.join(K.fmt(x) for x in seq[:-1]) if seq else
-                   'a longer history ending with ' + after))
+                   'a longer history (%s)' % after))
         case = ({'clause': 'calls', 'seq': seq} if seq else
                 {'clause': 'calls-unit', 'tier': tier, 'kind': kind, 'a': a, 'b': b})
         out.append((sig, what, case))
